@@ -376,13 +376,6 @@ func loopPos(h *ssa.BasicBlock) int {
 			m = s.Index
 		}
 	}
-	for _, p := range h.Preds {
-		if strings.HasPrefix(p.Comment, "for.") || strings.HasPrefix(p.Comment, "range") {
-			if p.Index < m {
-				m = p.Index
-			}
-		}
-	}
 	return m
 }
 
